@@ -147,7 +147,7 @@ theorem feistelG_bijOn (F : Nat → Nat → Nat) (rounds bits : Nat) (hok : Roun
     Set.BijOn (fun x => feistelG F rounds x bits) (Set.Iio (2 ^ bits)) (Set.Iio (2 ^ bits)) := by
   have maps : Set.MapsTo (fun x => feistelG F rounds x bits) (Set.Iio (2 ^ bits)) (Set.Iio (2 ^ bits)) :=
     fun x _ => feistelG_lt F rounds x bits
-  refine (Set.Finite.injOn_iff_bijOn_of_mapsTo (Set.finite_Iio _) maps).1 ?_
+  refine (Set.Finite.injOn_iff_bijOn_of_mapsTo (Set.finite_lt_nat (2 ^ bits)) maps).1 ?_
   intro x hx y hy h
   exact feistelG_injOn F rounds bits hok x y hx hy h
 
